@@ -40,7 +40,38 @@ def builders(G, op, n):
     return mk
 
 
+def replay_prodhist(run, gk, tvs):
+    """G = A*B(*C) built fresh, used, then reused as the LEFT operand of two further products; G must
+    be unaffected and the extended products must have the extended dimensions."""
+    import cyecca.lie as L
+    for tv in tvs:
+        X = tv["a"][0]
+        run.count("evaluations")
+        try:
+            G = group_of(X)
+            n0, shape0 = G.n_param, tuple(G.matrix_shape)
+            p = ca.DM(embed(X))
+            M0 = np.array(ca.DM(G.elem(p).to_Matrix()))
+            H1 = G * L.R2
+            H2 = G * L.SO3Quat
+            M1 = np.array(ca.DM(G.elem(p).to_Matrix()))
+            I1 = np.array(ca.DM(G.identity().to_Matrix()))
+            d = shape0[0]
+            ok = (G.n_param == n0 and tuple(G.matrix_shape) == shape0 and M1.shape == M0.shape
+                  and np.max(np.abs(M1 - rm_to_np(tv["exp"]))) <= TOL and np.max(np.abs(I1 - np.eye(d))) <= TOL
+                  and H1.n_param == n0 + 2 and H2.n_param == n0 + 4
+                  and np.array(ca.DM(H1.identity().to_Matrix())).shape == (d + 3, d + 3)
+                  and np.max(np.abs(np.array(ca.DM(H2.identity().to_Matrix())) - np.eye(d + 3))) <= TOL)
+        except Exception as e:      # noqa
+            run.violation(f"{gk}/prodhist/raises:{type(e).__name__}", f"a direct product reused as left operand of `*` is corrupted: {e}", {"tv": tv})
+            continue
+        if not ok:
+            run.violation(f"{gk}/prodhist/side_effect", "building G*R2 and G*SO3Quat changed G or produced products of the wrong dimension", {"tv": tv})
+
+
 def replay_group(run, cache, op, gk, tvs):
+    if op == "prodhist":
+        return replay_prodhist(run, gk, tvs)
     G = group_of(tvs[0]["a"][0])
     n = G.matrix_shape[0]
     built = cache.get((op, gk), builders(G, op, n))
